@@ -14,6 +14,9 @@ import (
 
 var VerifYield func()
 
+// VerifPushQueueLens is set by the optional overlay file actions_zz_verif_push.go.
+var VerifPushQueueLens func(p *HttpPushStreamer) (fast, slow, nack int)
+
 // VerifStreamAckNack is set by the optional overlay file actions_zz_verif_stream.go.
 var VerifStreamAckNack func(ctx context.Context, client *ent.Client, subID uuid.UUID, subName string, ack, nack []uuid.UUID) error
 
